@@ -189,7 +189,7 @@ func c20URL(c *vf.Ctx) {
 	if !c.Active(sub) {
 		return
 	}
-	n := c.N(150000, 4000000)
+	n := c.N(150000, 10000000)
 	for i := 0; i < n; i++ {
 		if !c.Mine(sub, i) {
 			continue
@@ -223,7 +223,7 @@ func c20TLS(c *vf.Ctx) {
 	if !c.Active(sub) {
 		return
 	}
-	n := c.N(10000, 50000)
+	n := c.N(10000, 200000)
 	for i := 0; i < n; i++ {
 		if !c.Mine(sub, i) {
 			continue
@@ -295,7 +295,7 @@ func c20EndToEnd(c *vf.Ctx) {
 	defer srv.Close()
 	su, _ := url.Parse(srv.URL)
 	lsys := cidlink.DefaultLinkSystem()
-	n := c.N(1500, 10000)
+	n := c.N(1500, 40000)
 	pid := Keys()["ed25519"][0].ID
 	for i := 0; i < n; i++ {
 		if !c.Mine(sub, i) {
@@ -443,7 +443,7 @@ func c20Helpers(c *vf.Ctx) {
 	if !c.Active(sub) {
 		return
 	}
-	n := c.N(30000, 300000)
+	n := c.N(30000, 1000000)
 	for i := 0; i < n; i++ {
 		if !c.Mine(sub, i) {
 			continue
